@@ -20,8 +20,9 @@ TRUSTED_BASE = BASE_TRUSTED + [
     'sequence of evaluation points (logged from scipy on every run), the lens is left at the last one',
     'modelled, not verified: the global NumPy random stream is a section variable (draw, seed_state); the harness checks '
     'that a seeded run consumes exactly RandomState(seed) in plan order',
-    'store laws (set-set, set-get, commute) are hypotheses of the abstract theorems; they are proved for the thickness '
-    'arithmetic of Optic.set_thickness and the scale/inverse_scale kernels over exact reals; in binary64 '
+    'store laws (set-set, set-get, commute) are HYPOTHESES of the abstract theorems; for the concrete lens model '
+    '(including the position arithmetic of Optic.set_thickness) they are not proved, only validated by executing the model '
+    'against the implementation on every run; proved over exact reals: scale/inverse_scale are mutually inverse; in binary64 '
     'inverse_scale(scale(v)) may differ from v by one ulp (observed), the harness compares with tolerance 1e-9',
     'solves and polynomial/Chebyshev coefficient variables are not in the concrete model (pickups are)',
 ]
@@ -32,8 +33,8 @@ RULE = ('scenarios: seeded singlets/doublets (+plane window) with ideal and cata
 PARTIAL = [
     'reset_restores / row_is_fresh / ends_nominal are proved for any lens type whose variable handles satisfy the store laws and '
     'with Optic.update() acting as the identity (no pickups/solves); with pickups the statement is refuted (finding)',
-    'the store laws are proved for the concrete thickness arithmetic and for scale/inverse_scale; for the remaining record '
-    'fields of the concrete lens they are checked by execution only',
+    'the store laws are not proved for the concrete lens (record fields and set_thickness arithmetic): they are hypotheses, '
+    'validated by execution only; only the scale/inverse_scale round trip is proved (exact reals)',
     'nan_operand_row: that a failed ray yields NaN is a property of the operands (not modelled); independence of later rows is '
     'row_is_fresh',
 ]
